@@ -70,6 +70,7 @@ type Program struct {
 	symbolicMake   bool
 	noWitness      bool
 	hashNoInj      bool // //verif:option hash-no-injectivity
+	opaqueIntFloat bool // //verif:option opaque-int-float: float64(symbolic integer) is an untracked float
 }
 
 func (p *Program) isRoot(pkg *ssa.Package) bool { return p.roots[pkg] }
@@ -379,6 +380,8 @@ func (P *Program) applyDirective(kind, rest string, cur *ssa.Package) error {
 				P.noWitness = true
 			case "hash-no-injectivity":
 				P.hashNoInj = true
+			case "opaque-int-float":
+				P.opaqueIntFloat = true
 			default:
 				return fmt.Errorf("unknown option %q", o)
 			}
